@@ -98,6 +98,9 @@ def exec_case(m, case):
     common.reset_sut(case.get("seed", 0))
     fakes.set_phase("build")
     fakes.CURRENT["task"] = None
+    del fakes.ALL_SOURCES[:]
+    del fakes.ALL_FNS[:]
+    fakes._LOCKS.clear()
     stats = {}
     log = []
     res = {"prop": m.ID}
@@ -105,7 +108,7 @@ def exec_case(m, case):
         m.execute(case, stats, log)
         res["status"] = "ok"
     except common.Violation as v:
-        res.update(status="violation", vprop=v.prop, cls=v.cls, detail=str(v.detail)[:2000], step=v.step)
+        res.update(status="violation", vprop=v.prop, cls=v.cls, detail=str(v.detail)[:2000], step=v.step, info=v.info)
     except common.Invalid as e:
         res.update(status="invalid", detail=str(e)[:500])
     except common.HarnessError as e:
